@@ -333,3 +333,9 @@ Fixpoint sc_final (h : shared) (os : list sc_op) : shared :=
 
 Definition attached (os : list sc_op) : list nat :=
   flat_map (fun o => match o with ScAttach i => [i] | ScReport _ => [] end) os.
+
+(* ---- the order in which extensions are started / stopped / notified: extensions.New + computeOrder ---------------
+   New stores every configured ID in extMap (a map: a repeated ID overwrites its entry) and computeOrder builds the
+   order from the KEYS of that map (topological sort; without dependencies the order among the keys is unspecified):
+   every configured extension appears in the order exactly once, however often service::extensions names it. *)
+Definition ext_ids (cfg : list nat) : list nat := nodup Nat.eq_dec cfg.
